@@ -710,7 +710,7 @@ C07_SCRIPTS = [
     ("return inside if inside while inside call", "fn f() {\n    while true {\n        if true {\n            return 7\n        }\n    }\n    return 8\n}\nprint(f())\n", "7\n"),
     ("break reaches only the innermost loop", "n := 0\nfor x in [1, 2] {\n    while true {\n        break\n    }\n    n += 1\n}\nprint(n)\n", "2\n"),
     ("first true branch only", "if false {\n    print(1)\n} else if true {\n    print(2)\n} else if true {\n    print(3)\n} else {\n    print(4)\n}\n", "2\n"),
-    ("statements after break do not run", "for x in [1, 2, 3] {\n    print(x)\n    break\n    print(9)\n}\n", "1\n"),
+    ("statements after break do not run", "for x in [1, 2, 3] {\n    print(x[1])\n    break\n    print(9)\n}\n", "1\n"),
     ("a declaration in a taken else-branch does not outlive it", "if false {\n} else {\n    k := 1\n}\nk = 2\n", None),
     ("parameters share the scope of the body", "fn g(t) {\n    t := 0\n}\ng(1)\nprint(0)\n", None),
     ("for iterates a snapshot", "xs := [1, 2]\nn := 0\nfor x in xs {\n    xs = xs + [3]\n    n += 1\n}\nprint(n)\n", "2\n"),
